@@ -22,6 +22,7 @@ SPECS = {
      "entries": [{"entry": "vh_c06_tagged", "label": "vh_c06_tagged.q.r0.k%d.c%d" % (k, c), "fix": {"rank": 0, "kind#0": k, "cols": c, "npositions": 1}, "tiers": ["quick"]} for (k, c) in ((0, 1), (1, 1), (2, 1), (3, 1), (4, 1), (1, 0), (1, 2))]
                + [{"entry": "vh_c06_feature", "label": "vh_c06_feature.q.r0.k%d.c%d" % (k, c), "fix": {"rank": 0, "kind#0": k, "cols": c, "npositions": 1}, "tiers": ["quick"]} for (k, c) in ((0, 0), (1, 1))]
                + [{"entry": "vh_c06_tagged", "label": "vh_c06_tagged.q.r1.f%d.k%d" % (f, k), "fix": {"rank": 1, "focus": f, "n": 1, "cols": 1, "npositions": 1, "kind#%d" % f: k, "kind#%d" % (1 - f): [1, 3, 4, 0, 1][k]}, "tiers": ["quick"]} for (f, k) in ((0, 1), (1, 3), (0, 0))]
+               + [{"entry": "vh_c06_tagged", "label": "vh_c06_tagged.q.r1.cols%d" % c, "fix": {"rank": 1, "focus": 0, "n": 1, "cols": c, "npositions": 1, "kind#0": 0, "kind#1": 1}, "tiers": ["quick"]} for c in (0, 2)]
                + [{"entry": e, "label": "%s.r0.k%d.c%d" % (e, k, c), "fix": {"rank": 0, "kind#0": k, "cols": c}, "tiers": ["thorough"]} for e in ("vh_c06_tagged", "vh_c06_feature") for k in range(5) for c in range(3)]
                + [{"entry": e, "label": "%s.r1.f%d.k%d.o%d" % (e, f, k, o), "fix": {"rank": 1, "focus": f, "cols": 1, "kind#%d" % f: k, "kind#%d" % (1 - f): o}, "tiers": ["thorough"]} for e in ("vh_c06_tagged", "vh_c06_feature") for f in range(2) for k in range(5) for o in range(5)]}]},
  "C17": {
@@ -117,11 +118,11 @@ SPECS = {
      "entries": [{"entry": e, "label": "%s.op%d" % (e, o), "fix": {"op#0": o}} for e in ("vh_c02_reopen_ro", "vh_c02_reopen_rw") for o in range(39)]}]},
  "C03": {
   "explanation": "Full stack (front-end + backend/hdf5 + h5x) on the HDF5 model: bounded create/delete histories per container kind, checked after every step and after close+reopen against a reference list in creation order.",
-  "bounds": {"quick": {"history_steps": 3, "names": ["a", "b", "A", "a ", "..", "UUID-shaped", "", "a/b", "1 symbolic char in {a,b,c,/}"], "containers": 11},
+  "bounds": {"quick": {"history_steps": 3, "names": ["a", "b", "UUID-shaped", "", "a/b", "1 symbolic char in {a,b,c,/}", "(thorough: also 'A', 'a ', '..')"], "containers": 11},
              "thorough": {"history_steps": 4}},
   "outside": ["names longer than the candidates / non-ASCII UTF-8", "HDF5's own creation-order index (modelled)", "features, tag references, group members, entity sources as containers (covered by C04/C02 harnesses)"],
   "assumptions": ["libhdf5 replaced by h5model", "createId replaced by a counter-based UUID generator (ids unique by construction)"],
-  "harnesses": [{"file": "C03_names.cpp", "defines": {"quick": ["-DVH_STEPS=3"], "thorough": ["-DVH_STEPS=4"]},
+  "harnesses": [{"file": "C03_names.cpp", "defines": {"quick": ["-DVH_STEPS=3", "-DVH_NAMES=6"], "thorough": ["-DVH_STEPS=4", "-DVH_NAMES=9"]},
      "entries": [{"entry": e} for e in ("vh_c03_blocks", "vh_c03_file_sections", "vh_c03_sub_sections", "vh_c03_properties", "vh_c03_block_sources", "vh_c03_sub_sources",
                                          "vh_c03_data_arrays", "vh_c03_tags", "vh_c03_multi_tags", "vh_c03_groups", "vh_c03_data_frames")]}]},
  "C10": {
